@@ -79,9 +79,9 @@ var Properties = []Property{
 		Explain: "Non-interference for both parameters of MnemonicToSeed: each reaches only norm.NFKD (the passphrase after concatenation with a constant, which preserves the property), so equal NFKD forms give equal PBKDF2 inputs.",
 		Trusted: []string{axNFKD, "pbkdf2.Key is a function of its arguments", axTool, axChecker}},
 	{ID: "C12", Title: "Concurrent cold-start use is race-free and equals sequential use", Level: "proof",
-		Rules: []string{"ANCHOR", "E1", "T3", "E2", "F4", "F3b"},
+		Rules: []string{"ANCHOR", "E1", "T3", "E2", "F4", "F3a", "F3b"},
 		Floors: map[string]int{"E1.classified": 31, "E1.once-built": 10, "E1.guard": 10, "T3.maps": 10, "T3.guards": 10},
-		Explain: "Guarded-by discipline over all package-level variables: each is initialiser-only (only its declaration writes it and nothing writes its referent), or a lookup map written only inside the one function its own sync.Once runs and read only after that Once's Do, or a sync.Once used only as a Do receiver, or the randomness source (no non-test writer). No go statement, channel, atomic, unsafe or reflect in the library. The discipline is schedule-independent, so it covers all interleavings.",
+		Explain: "Guarded-by discipline over all package-level variables: each is initialiser-only (only its declaration writes it and nothing writes its referent), or a lookup map written only inside the one function its own sync.Once runs and read only after that Once's Do, or a sync.Once used only as a Do receiver, or the randomness source (initialised to crypto/rand.Reader, which is safe for concurrent use, and with no non-test writer). No go statement, channel, atomic, unsafe or reflect in the library. The discipline is schedule-independent, so it covers all interleavings.",
 		Trusted: []string{axOnce, "sha256.New, big.Int locals, norm, pbkdf2 and crypto/rand.Reader are safe as used (library thread-safety)", axTool, axChecker}},
 	{ID: "C13", Title: "No history dependence, no mutation", Level: "proof",
 		Rules: []string{"ANCHOR", "E1", "T3", "F4", "F2r", "E2"},
